@@ -9,7 +9,7 @@
    says that the float64 with pattern b is finite and is exactly the integer x. *)
 From Coq Require Import List ZArith Bool Lia.
 From Verif Require Import Base.Word Base.Outcome Base.FBits Gen.Consts Gen.Leaf
-  C07.Model C07.Spec C07.ProofsLeaf C07.ProofsFrac C07.Proofs.
+  C07.Model C07.Spec C07.ProofsLeaf C07.ProofsFrac C07.Proofs C07.ProofsJson.
 Import ListNotations.
 Local Open Scope Z_scope.
 
@@ -105,6 +105,19 @@ Theorem C07_float32_overflow_partial : forall (f x : Z),
 Proof. exact narrow_f32_ok. Qed.
 Print Assumptions C07_float32_overflow_partial.
 
+(* json integer fast path (partial: only the exponent scaling step; readFloat's digit loop
+   and parseUint64_simple are not translated yet, json float parsing belongs to C09):
+   the translated parseUint64_reader returns, for an exact decimal mantissa m and exponent e,
+   m * 10^e only when that fits a uint64 (F07-4) and m / 10^-e only when the division is exact *)
+Theorem C07_json_scale_partial : forall (r : readFloatResult) (f : Z),
+  0 <= readFloatResult_mantissa r < 2 ^ 64 -> - 128 <= readFloatResult_exp r < 128 ->
+  parseUint64_reader r = Ok (f, false) ->
+  0 <= f < 2 ^ 64 /\
+  (0 <= readFloatResult_exp r -> f = readFloatResult_mantissa r * 10 ^ readFloatResult_exp r) /\
+  (readFloatResult_exp r < 0 -> readFloatResult_mantissa r = f * 10 ^ (- readFloatResult_exp r)).
+Proof. exact parseUint64_reader_spec. Qed.
+Print Assumptions C07_json_scale_partial.
+
 (* non-vacuity *)
 Example C07_int_nonvacuous :
   decode cbor KInt64 [27; 127; 255; 255; 255; 255; 255; 255; 255] = Ok (2 ^ 63 - 1)
@@ -133,4 +146,11 @@ Example C07_float32_nonvacuous :
   narrow_f32 (Ok 5183643170566569984) = Ok 2139095039           (* MaxFloat32 stays MaxFloat32 *)
   /\ narrow_f32 (Ok 5183643170566569985) = Err EOverflow        (* the next float64 up is an error *)
   /\ narrow_f32 (Ok f64_inf) = Ok f32_inf.
+Proof. vm_compute. repeat apply conj; reflexivity. Qed.
+
+Example C07_json_scale_nonvacuous :
+  parseUint64_reader (mk_readFloatResult 2 19 false false false false true) = Ok (2, true)       (* 2e19: F07-4 *)
+  /\ parseUint64_reader (mk_readFloatResult 1 19 false false false false true) = Ok (10 ^ 19, false)
+  /\ parseUint64_reader (mk_readFloatResult 15 (-1) false false false false true) = Ok (15, true)  (* 1.5 *)
+  /\ parseUint64_reader (mk_readFloatResult 150 (-1) false false false false true) = Ok (15, false).
 Proof. vm_compute. repeat apply conj; reflexivity. Qed.
